@@ -22,6 +22,7 @@ INJECT = [
     ("zkabacus-crypto/src/merchant.rs", "za_merchant.rs"),
     ("zkabacus-crypto/src/states.rs", "za_states.rs"),
     ("zkabacus-crypto/src/customer.rs", "za_customer.rs"),
+    ("zkabacus-crypto/src/revlock.rs", "za_revlock.rs"),
     ("zkabacus-crypto/src/proofs.rs", "za_proofs.rs"),
 ]
 
@@ -47,6 +48,7 @@ TESTS = {
     "standin_pay_tuple": ("zkabacus-crypto", ["C06", "C02"], ["zproofs.PayProof::new", "zproofs.PayProof::verify"]),
     "standin_no_hidden_slot_exposed": ("zkabacus-crypto", ["C14"], ["zproofs.EstablishProof::new", "zproofs.PayProof::new"]),
     "standin_close_from_every_stage": ("zkabacus-crypto", ["C03", "C04", "C14"], ["customer.Inactive/Ready/Started/Locked::close", "merchant.Config::check_close_signature"]),
+    "standin_revocation_pair": ("zkabacus-crypto", ["C05", "C15", "C20"], ["revlock.RevocationPair::new", "revlock.RevocationPair::try_from_secret", "revlock.RevocationPair::try_from_pair"]),
     "standin_restore_continues": ("zkabacus-crypto", ["C20", "C03"], ["customer.Requested/Inactive/Ready/Started/Locked (serde derives)", "customer.*::close", "customer.Started::lock"]),
     "standin_merchant_flow": ("zkabacus-crypto", ["C04", "C05", "C03", "C01", "C02"], ["merchant.Config::*", "merchant.Unrevoked::complete_payment", "customer.*"]),
 }
